@@ -80,6 +80,61 @@ def boundary_instants() -> list[int]:
     return sorted(ks)
 
 
+def job_back(ks: list[int], j: int, pv_to_tel: Any) -> tuple[list[dict[str, Any]], dict[str, str]]:
+    """the PV job with timestamps `ks` (µs) as a chain, and what comes back through pv_event_to_otel + sequence_otel_event_job"""
+    from tel2puml.otel_to_pv.otel_to_pv_types import OTelEvent
+    from tel2puml.otel_to_pv.sequence_otel import sequence_otel_event_job
+    texts = [expected_string(k) for k in ks]
+    job = []
+    for i, t in enumerate(texts):
+        ev: dict[str, Any] = {"jobId": f"j{j}", "eventId": f"j{j}-e{i}", "eventType": f"T{i}", "timestamp": t,
+                              "applicationName": "app", "jobName": "job"}
+        if i:
+            ev["previousEventIds"] = [f"j{j}-e{i - 1}"]
+        job.append(ev)
+    spans = [pv_to_tel.pv_event_to_otel(e) for e in job]
+    kids: dict[str, list[str]] = {sp["span_id"]: [] for sp in spans}
+    for sp in spans:
+        if "parent_span_id" in sp:
+            kids[sp["parent_span_id"]].append(sp["span_id"])
+    otel = {sp["span_id"]: OTelEvent(job_name="job", job_id=sp["trace_id"],
+                                     event_type=sp["attributes"][0]["value"]["Value"]["StringValue"],
+                                     event_id=sp["span_id"], start_timestamp=sp["start_time_unix_nano"],
+                                     end_timestamp=sp["end_time_unix_nano"], application_name=sp["name"],
+                                     parent_event_id=sp.get("parent_span_id"), child_event_ids=kids[sp["span_id"]])
+            for sp in spans}
+    return job, {e["eventId"]: e["timestamp"] for e in sequence_otel_event_job(otel)}
+
+
+def job_round_trip_part(ctx: Ctx, pv_to_tel: Any) -> None:
+    """PV -> OTel -> PV at the place where the pipeline does it: whole jobs through `pv_event_to_otel` and
+    `sequence_otel_event_job` (the only call site that turns span end times into PV timestamps).  The events of one job
+    end in the same second, millisecond or microsecond as each other or far apart; every event must come back with the
+    timestamp it went in with."""
+    r = ctx.rng
+    for j in range(300 if ctx.tier == "quick" else 4000):
+        if ctx.too_many():
+            break
+        base = r.randrange(MAX_MICROS - 10**8)
+        ks = [base]
+        for _ in range(r.choice([1, 2, 3, 4])):
+            step = r.choice([0, 1, r.randrange(1, 1000), r.randrange(1000, 10**6), r.randrange(10**6, 10**8)])
+            ks.append(ks[-1] + step)
+        ctx.tick("job_round_trips")
+        ctx.case(("job", tuple(ks)), len(set(k // 1000 for k in ks)) < len(ks))
+        try:
+            job, back = job_back(ks, j, pv_to_tel)
+        except Exception as ex:  # noqa: BLE001
+            ctx.violation(f"PV -> OTel -> PV of a job raised {type(ex).__name__}: {str(ex)[:200]}",
+                          {"input": {"job_micros": ks}}, key=("job", tuple(ks)))
+            continue
+        bad = [f"{e['eventId']} went in as {e['timestamp']} and came back as {back.get(e['eventId'])}"
+               for e in job if back.get(e["eventId"]) != e["timestamp"]]
+        if bad:
+            ctx.violation("PV -> OTel -> PV of a job changes timestamps: " + "; ".join(bad[:3]),
+                          {"input": {"job_micros": ks}, "observed": back}, key=("job", tuple(ks)))
+
+
 def run(ctx: Ctx) -> None:
     problems = translate(["Time", "Consts"])
     for p in problems:
@@ -255,6 +310,7 @@ def run(ctx: Ctx) -> None:
                               {"input": {"nanos": n}, "model": r, "impl": s}, key=("n", n), concrete=concrete)
                 if ctx.too_many():
                     break
+    job_round_trip_part(ctx, pv_to_tel)
     ctx.assumptions += [
         "CPython float/int conversion, datetime.fromtimestamp, strftime and fromisoformat are modelled, not verified; "
         "the correspondence run compares them with the Lean model on every generated instant",
@@ -277,14 +333,36 @@ def replay(data: dict[str, Any]) -> int:
         print(f"instant {k} µs: expected {want}; unix_nano_to_pv_string -> {got}; "
               f"convert_timestamp_to_unix_nano -> {back} (expected {1000 * k})")
         return 0 if (got == want and back == 1000 * k) else 1
-    if "text" in inp:
+    if "job_micros" in inp:
         try:
-            print(pv_to_tel.convert_timestamp_to_unix_nano(inp["text"]), "model:", data.get("model"))
+            job, back = job_back(inp["job_micros"], 0, pv_to_tel)
         except Exception as ex:  # noqa: BLE001
-            print("raised", ex, "model:", data.get("model"))
-        return 1
+            print("raised", ex)
+            return 1
+        bad = [(e["eventId"], e["timestamp"], back.get(e["eventId"])) for e in job if back.get(e["eventId"]) != e["timestamp"]]
+        print(bad or "every timestamp comes back unchanged")
+        return 1 if bad else 0
+    if "text" in inp:
+        t = inp["text"]
+        try:
+            got: Any = pv_to_tel.convert_timestamp_to_unix_nano(t)
+        except Exception as ex:  # noqa: BLE001
+            got = None
+            print("raised", ex)
+        try:
+            dt = datetime.strptime(t.rstrip("Z"), "%Y-%m-%dT%H:%M:%S.%f" if "." in t else "%Y-%m-%dT%H:%M:%S")
+            truth: Any = ((dt.replace(tzinfo=timezone.utc) - EPOCH) // timedelta(microseconds=1)) * 1000
+        except ValueError:
+            truth = None
+        print("code:", got, "instant denoted:", truth, "model:", data.get("model"))
+        return 0 if got == truth else 1
     if "nanos" in inp:
         ns = inp["nanos"] if isinstance(inp["nanos"], list) else [inp["nanos"]]
-        print([utils.unix_nano_to_pv_string(n) for n in ns], data.get("model"))
-        return 1
+        outs = [utils.unix_nano_to_pv_string(n) for n in ns]
+        print(outs, data.get("model"))
+        if len(ns) == 2:
+            return 1 if outs[0] > outs[1] else 0
+        n = ns[0]
+        lo, hi = n // 1000, -(-n // 1000)
+        return 0 if outs[0] in (expected_string(lo), expected_string(min(hi, MAX_MICROS - 1))) else 1
     return 2
